@@ -274,8 +274,45 @@ class ClassRef(orders.PyStub):
         call.__name__ = name
         return call
 
+    def _tuple_base(self):
+        """the namedtuple class this repository class (or one of its repository bases) derives from, if any:
+        class _Segment(namedtuple('_Segment', 'x1 y1 x2 y2')) or a base bound to such a class at module level"""
+        if '_ntbase' not in self.__dict__:
+            found = None
+            stack = [self._qual]
+            seen = set()
+            while stack and found is None:
+                q = stack.pop()
+                if q in seen:
+                    continue
+                seen.add(q)
+                c = self._ctx.prog.cls(q)
+                for b in c.node.bases:
+                    try:
+                        v = orders.ev(b, {}, self._fn)
+                    except (orders.Unsupported, KeyError, AttributeError, TypeError):
+                        continue
+                    if isinstance(v, type) and issubclass(v, tuple) and hasattr(v, '_fields'):
+                        found = v
+                        break
+                    if isinstance(v, ClassRef):
+                        stack.append(v._qual)
+            object.__setattr__(self, '_ntbase', found)
+        return self.__dict__['_ntbase']
+
     def __call__(self, *args, **kwargs):
         obj = instance(self._ctx, self._qual, {}, self._fn, isa=all_bases(self._ctx, self._qual))
+        nt = self._tuple_base()
+        if nt is not None and '__new__' not in obj.methods:
+            proto = nt(*args, **kwargs)              # (binds positional / keyword / default field values as the namedtuple does)
+            for k_, v_ in zip(nt._fields, proto):
+                obj.fields[k_] = v_
+            obj.ntfields = tuple(nt._fields)
+            obj.isa = set(obj.isa) | {'tuple'}
+            if '__init__' in obj.methods:
+                obj.call('__init__', *args, **kwargs)
+            obj.constructed = True
+            return obj
         if '__init__' in obj.methods:
             obj.call('__init__', *args, **kwargs)
         obj.constructed = True          # every field comes from the repository's own constructor: a missing one is an AttributeError
@@ -303,6 +340,13 @@ def all_bases(ctx, clsqual):
     return out
 
 
+def _carry(src, dst):
+    """what a copy of a record keeps besides its fields: the class tables and the marks set at construction"""
+    for k in ('mro', 'classnames', 'constructed', 'ntfields'):
+        if hasattr(src, k):
+            setattr(dst, k, getattr(src, k))
+
+
 def shallow_copy(v):
     """copy.copy for the values of the interpreter: a new record / container holding the same members"""
     import copy as _copy
@@ -312,6 +356,7 @@ def shallow_copy(v):
         o.clsqual = getattr(v, 'clsqual', None)
         o.consts = getattr(v, 'consts', None)
         o.owners = getattr(v, 'owners', None)
+        _carry(v, o)
         return o
     if isinstance(v, (list, dict, set)):
         return _copy.copy(v)
@@ -331,6 +376,7 @@ def deep_copy(v, memo=None):
         o.clsqual = getattr(v, 'clsqual', None)
         o.consts = getattr(v, 'consts', None)
         o.owners = getattr(v, 'owners', None)
+        _carry(v, o)
         memo[id(v)] = o
         o.fields = {k: deep_copy(x, memo) for k, x in v.fields.items()}
         return o
